@@ -109,6 +109,9 @@ class Report:
             sigkey = json.dumps(_jsonable(sig), sort_keys=True)
             if sigkey in seen_sig and sig is not None:
                 continue  # one replay per distinct signature
+            if len(seen_sig) >= int(os.environ.get("VERIF_MAX_REPLAYS", "8")):
+                self.notes.append("more candidate counterexamples than the replay cap; remaining ones not replayed")
+                break
             path = os.path.join(OUT, f"{self.pid}_cex_{len(seen_sig)}.json")
             with open(path, "w") as f:
                 json.dump(_jsonable(dict(property=self.pid, module=module, record=v)), f, indent=1)
